@@ -2,28 +2,6 @@ package ergo
 
 // C09: prune removes exactly finished work; pruned ids are gone for good.
 
-func zzInList(xs []string, x string) bool {
-	for _, y := range xs {
-		if y == x {
-			return true
-		}
-	}
-	return false
-}
-
-// zzPruneSpec: done/canceled tasks, and epics left without any remaining (unpruned) child.
-func zzPruneSpec(g *Graph, t *Task) bool {
-	if !t.IsEpic {
-		return t.State == "done" || t.State == "canceled"
-	}
-	for _, c := range g.Tasks {
-		if !c.IsEpic && c.EpicID == t.ID && !(c.State == "done" || c.State == "canceled") {
-			return false
-		}
-	}
-	return true
-}
-
 func zzC09Select(spec string) {
 	g := &Graph{}
 	zzHavoc("g", g, spec)
